@@ -58,6 +58,15 @@ class Traph(object):
                 raise TraphException("Given webentity creation rules is not a dict!")
                 # TODO: check if each value is correctly a string
 
+            # A pattern that does not compile must be refused before any file
+            # is created: files left behind by a failed construction would make
+            # the next attempt open them as an existing index, whose creation
+            # rules are then never written in the trie
+            re.compile(default_webentity_creation_rule, re.I)
+
+            for pattern in webentity_creation_rules.values():
+                re.compile(pattern, re.I)
+
         # Files
         self.folder = folder
         self.lru_trie_file = None
